@@ -152,6 +152,21 @@ pub fn main(args: &Args) -> i32 {
             }
         };
     }
+    // harvested family: the definitions with subpatterns that ship with the repository, references inlined by the
+    // harness' own substitution
+    for h in model::harvest::harvest() {
+        if h.def.subpatterns.is_empty() {
+            continue;
+        }
+        run.count("harvested_defs_with_subpatterns", 1);
+        let case = SubCase { def: h.def.clone(), must_reject: false, max_ref_depth: 0, reject_kind: 0 };
+        if let Err((input, msg)) = check(&case, &mut run) {
+            run.violations = 1;
+            report_violation("C11", &args.replay_dir, &json!({"property": "C11", "tier": "G", "origin": h.origin, "def": case.def, "must_reject": false, "reject_kind": 0, "rendered_rust": model::prep::render(&case.def), "input_hex": hex(&input), "input": show(&input), "findings": [{"property": "C11", "what": msg}]}));
+            run.write_evidence(&args.evidence);
+            return 1;
+        }
+    }
     let cases = if args.cases > 0 { args.cases } else if args.thorough() { 30000 } else { 1500 };
     let res = drive(&subpattern_defs(), cases, args.seed ^ 0xC11, 600, &mut run, |c, run| check(c, run).map_err(|e| e.1));
     let code = match res {
